@@ -23,9 +23,16 @@ def supp_observe(source, R):
     if R.star_files:
         # star-imported modules must exist for supp: a project directory of their own
         tmp = root = tempfile.mkdtemp(prefix='mscope-')
-        for mod, text in R.star_files.items():
-            with open(os.path.join(root, mod + '.py'), 'w') as fd:
-                fd.write(text)
+        for i, (mod, text) in enumerate(sorted(R.star_files.items())):
+            # project files as editors save them: plain UTF-8, UTF-8 with a byte-order mark, another encoding with a coding cookie
+            variant = (len(source) + i) % 3
+            data = text.encode('utf-8')
+            if variant == 1:
+                data = b'\xef\xbb\xbf' + data
+            elif variant == 2:
+                data = ('# -*- coding: latin-1 -*-\n# caf\xe9\n' + text).encode('latin-1')
+            with open(os.path.join(root, mod + '.py'), 'wb') as fd:
+                fd.write(data)
     try:
         return _observe(source, R, root)
     finally:
